@@ -37,14 +37,10 @@ fn classify_build(text: &str) -> (Built, String) {
         },
         Ok(Err(e)) => {
             let msg = e.to_string();
-            if msg.starts_with("failed to parse") {
-                (Built::Parse, msg)
-            }
-            else if msg.starts_with("malformed") {
-                (Built::Rule, msg)
-            }
-            else {
-                (Built::Compile, msg)
+            match e.verif_kind() {
+                "parse" => (Built::Parse, msg),
+                "rule" => (Built::Rule, msg),
+                _ => (Built::Compile, msg),
             }
         },
         Err(_) => (Built::Panic, String::new()),
